@@ -10,6 +10,7 @@ func initHashRecord() {
 	RegisterNativeClass("Std::HashRecord", "value.HashRecordClass")
 
 	HashRecordIteratorClass = NewClass()
+	HashRecordIteratorClass.IncludeMixin(ResettableIteratorBaseMixin)
 	HashRecordClass.AddConstantString("Iterator", HashRecordIteratorClass.ToValue())
 	RegisterNativeClass("Std::HashRecord::Iterator", "value.HashRecordIteratorClass")
 }
